@@ -347,6 +347,100 @@ def plant_document_level(doc, dia, r):
                with_elems(doc, last_path, elems + [("item", "_unclosed", S(txt, "sq"))]), 107, {"no_trail": True, "hi_eof": True}, None)
 
 
+def plant_eof(doc, dia, r):
+    """every class that can be cut off by the END OF THE INPUT, with NO line terminator behind it: the defect is the very last
+    thing in the last container of the document (last block, and last frame when the last element is one)"""
+    E = {"no_trail": True, "hi_eof": True}
+    paths = [p for p in containers(doc) if p[0] == len(doc) - 1]
+    last = [p for p in paths if len(p) == 1][-1]
+    targets = [(last, "block")]
+    for path, where in targets:
+        elems = get_elems(doc, path)
+        for raw, txt in (("'no end", "no end"), ('"q', "q"), ("'", ""), ("'x y ", "x y "), ('"a\'b', "a'b")):
+            yield ("eof_endquote/" + where, with_elems(doc, path, elems + [("item", "_eof", ("rawv", raw))]),
+                   with_elems(doc, path, elems + [("item", "_eof", S(txt, "sq"))]), 106, E, None)
+        for raw, txt in (("\n;open text", "open text"), ("\n;", ""), ("\n;a\nb", "a\nb")) + \
+                ((("'''open", "open"), ('"""a\n"', 'a\n"'), ("'''", "")) if dia == 2 else ()):
+            yield ("eof_unclosed/" + where, with_elems(doc, path, elems + [("item", "_eof", ("rawv", raw))]),
+                   with_elems(doc, path, elems + [("item", "_eof", S(txt, "sq"))]), 107, E, None)
+        yield ("eof_missing_value/" + where, with_elems(doc, path, elems + [("noval", "_eof")]),
+               with_elems(doc, path, elems + [("item", "_eof", ("unk",))]), 133, E, None)
+        yield ("eof_null_loop/" + where, with_elems(doc, path, elems + [("raw", "loop_", True)]), doc, 37, E, None)
+        yield ("eof_empty_loop/" + where, with_elems(doc, path, elems + [("loop", ["_eof.a", ("mark", "_eof.b")], [])]), doc, 36, E,
+               with_elems(doc, path, elems + [("loop", ["_eof.a", "_eof.b"], [])]))
+        yield ("eof_partial_packet/" + where,
+               with_elems(doc, path, elems + [("loop", ["_eof.a", "_eof.b", "_eof.c"], [[S("1"), S("2"), S("3")], [S("4"), ("skip",), ("skip",)]])]),
+               with_elems(doc, path, elems + [("loop", ["_eof.a", "_eof.b", "_eof.c"], [[S("1"), S("2"), S("3")], [S("4"), ("unk",), ("unk",)]])]),
+               53, dict(E, mark_last=True), None)
+        if dia == 2:
+            for v in (("list", [S("1"), S("two", "sq")], False), ("table", [("k", "sq", S("1"))], False),
+                      ("list", [("list", [S("1")], False)], False)):
+                closed = ("list", [("list", [S("1")])]) if v[1] and v[1][0][0] == "list" else (v[0], v[1])
+                yield ("eof_missing_delim/" + where, with_elems(doc, path, elems + [("item", "_eof", ("mark", v))]),
+                       with_elems(doc, path, elems + [("item", "_eof", closed)]), 136, E, None)
+            yield ("eof_missing_value_in_table/" + where,
+                   with_elems(doc, path, elems + [("item", "_eof", ("table", [("k", "sq", ("none",))], False))]),
+                   with_elems(doc, path, elems + [("item", "_eof", ("table", [("k", "sq", ("unk",))]))]), 133, dict(E, mark_key="'k':"), None)
+    # the same inside a save frame that is itself cut off: CIF_EOF_IN_FRAME follows, the FIRST report is the class's
+    fr = [("item", "_in.frame", S("1"))]
+    elems = get_elems(doc, last)
+    if not any(e[0] == "frame" and e[1] == "ef" for e in elems):
+        yield ("eof_endquote/frame", with_elems(doc, last, elems + [("frame", "ef", fr + [("item", "_eof", ("rawv", "'cut"))], False)]),
+               with_elems(doc, last, elems + [("frame", "ef", fr + [("item", "_eof", S("cut", "sq"))])]), 106, E, None)
+        yield ("eof_missing_value/frame", with_elems(doc, last, elems + [("frame", "ef", fr + [("noval", "_eof")], False)]),
+               with_elems(doc, last, elems + [("frame", "ef", fr + [("item", "_eof", ("unk",))])]), 133, E, None)
+
+
+# ---------------------------------------------------------------------------------------------------------------------
+# line length: exactly which lines are reported
+
+def boundary_cases(dia):
+    """documents with ONE line of 2047 / 2048 / 2049 characters in every context; yields (label, text, doc, long line number, L)"""
+    A = lambda n: "a" * n          # noqa: E731
+    for L in (2047, 2048, 2049):
+        pre = "data_a\n"
+        ctxs = [
+            ("bare", pre + "_x " + A(L - 3) + "\n_y 1\n", [("item", "_x", S(A(L - 3))), ("item", "_y", S("1"))], 2),
+            ("quoted", pre + "_x '" + A(L - 5) + "'\n_y 1\n", [("item", "_x", S(A(L - 5), "sq")), ("item", "_y", S("1"))], 2),
+            ("text_first", pre + "_x\n;" + A(L - 1) + "\nend\n;\n_y 1\n", [("item", "_x", S(A(L - 1) + "\nend", "text")), ("item", "_y", S("1"))], 3),
+            ("text_mid", pre + "_x\n;x\n" + A(L) + "\ny\n;\n_y 1\n", [("item", "_x", S("x\n" + A(L) + "\ny", "text")), ("item", "_y", S("1"))], 4),
+            ("text_last", pre + "_x\n;x\n" + A(L) + "\n;\n_y 1\n", [("item", "_x", S("x\n" + A(L), "text")), ("item", "_y", S("1"))], 4),
+            ("text_only", pre + "_x\n;" + A(L - 1) + "\n;\n", [("item", "_x", S(A(L - 1), "text"))], 3),
+            ("comment", pre + "#" + A(L - 1) + "\n_y 1\n", [("item", "_y", S("1"))], 2),
+            ("comment_after", pre + "_y 1 #" + A(L - 6) + "\n", [("item", "_y", S("1"))], 2),
+            ("blanks", pre + " " * L + "\n_y 1\n", [("item", "_y", S("1"))], 2),
+            ("tabs_then_value", pre + "\t" * (L - 1) + "1\n_y 1\n" if False else pre + "_y" + " " * (L - 3) + "1\n", [("item", "_y", S("1"))], 2),
+            ("cr", pre + "_x " + A(L - 3) + "\r_y 1\n", [("item", "_x", S(A(L - 3))), ("item", "_y", S("1"))], 2),
+            ("crlf", pre + "_x " + A(L - 3) + "\r\n_y 1\r\n", [("item", "_x", S(A(L - 3))), ("item", "_y", S("1"))], 2),
+            ("text_crlf", pre + "_x\r\n;x\r\n" + A(L) + "\r\ny\r\n;\r\n", [("item", "_x", S("x\n" + A(L) + "\ny", "text"))], 4),
+            ("two_lines", pre + "_x " + A(L - 3) + "\n#" + A(L - 1) + "\n_y 1\n", [("item", "_x", S(A(L - 3))), ("item", "_y", S("1"))], (2, 3)),
+        ]
+        if L <= 2048:
+            ctxs += [("name", pre + "_" + A(L - 1) + "\n1\n", [("item", "_" + A(L - 1), S("1"))], 2),
+                     ("eof_no_terminator", pre + "_y 1\n#" + A(L - 1), [("item", "_y", S("1"))], 3)]
+        if dia == 2:
+            sup = "\U0001f600"
+            ctxs += [
+                ("triple", pre + "_x '''x\n" + A(L) + "\ny'''\n", [("item", "_x", S("x\n" + A(L) + "\ny", "tsq"))], 3),
+                ("triple_first", pre + "_x '''" + A(L - 6) + "\ny'''\n", [("item", "_x", S(A(L - 6) + "\ny", "tsq"))], 2),
+                ("triple_last", pre + '_x """x\n' + A(L - 3) + '"""\n', [("item", "_x", S("x\n" + A(L - 3), "tdq"))], 3),
+                ("text_fold", pre + "_x\n;\\\n" + A(L - 1) + "\\\nb\n;\n", [("item", "_x", S(A(L - 1) + "b", "sq"))], 4),
+                ("text_prefix", pre + "_x\n;> \\\n> " + A(L - 2) + "\n;\n", [("item", "_x", S(A(L - 2), "sq"))], 4),
+                ("supplementary", pre + "_x " + sup * 3 + A(L - 6) + "\n_y 1\n", [("item", "_x", S(sup * 3 + A(L - 6))), ("item", "_y", S("1"))], 2),
+                ("supplementary_text", pre + "_x\n;x\n" + sup * 5 + A(L - 5) + "\n;\n", [("item", "_x", S("x\n" + sup * 5 + A(L - 5), "text"))], 4),
+                ("list_line", pre + "_x [" + A(L - 4) + "\n]\n", [("item", "_x", ("list", [S(A(L - 4))]))], 2),
+            ]
+        for label, text, elems, line in ctxs:
+            lines = line if isinstance(line, tuple) else (line,)
+            yield ("linelen/%s/%d" % (label, L), text, [("a", elems)], lines, L)
+
+
+def boundary_request(label, text, doc, lines, L, dia):
+    expected = list(lines) if L > 2048 else []
+    note = ["L", label, ",".join(str(x) for x in expected) or "-", "X"] + pd.dump_cif(pd.denote(doc, dia)).split(" ")[1:]
+    return make_request("parse", text, dia=dia, note=note)
+
+
 def applicable(label, doc, opts):
     if opts.get("only_if_no_frames"):
         return not any(e[0] == "frame" for b in doc for e in b[1])
@@ -407,6 +501,25 @@ def host_request(doc, dia, r, style):
 
 def oracle(req, impl):
     d = split_request(req)
+    if d["note"] and d["note"][0] == "L":
+        o = split_impl(impl)
+        if o is None:
+            return None if impl.startswith(("SAN:", "CRASH:", "TIMEOUT")) else "unreadable observation: " + impl[:80]
+        n = d["note"]
+        label = n[1]
+        want = [] if n[2] == "-" else [int(x) for x in n[2].split(",")]
+        expected = " " + " ".join(n[n.index("X") + 1:])
+        got = [line for code, line in o["log"] if code == 108]
+        other = [(c, l) for c, l in o["log"] if c != 108]
+        if other:
+            return "%s: unrelated report %d at line %d" % (label, other[0][0], other[0][1])
+        if got != want:
+            return "%s: CIF_OVERLENGTH_LINE reported for lines %s, the lines longer than 2048 characters are %s" % (label, got, want)
+        if o["rc"] != 0:
+            return "%s: cif_parse returned %d" % (label, o["rc"])
+        if o["cif"].rstrip() != expected.rstrip():
+            return "%s: content differs from what the document denotes" % label
+        return pd.post_ok(o)
     if "D" not in d["note"]:
         return pd.oracle(req, impl)
     o = split_impl(impl)
@@ -438,11 +551,13 @@ def oracle(req, impl):
 
 
 def nontrivial(req, impl):
-    return " D " in req
+    return " D " in req or " | L " in req
 
 
 def classify(req, impl):
     d = split_request(req)
+    if d["note"] and d["note"][0] == "L":
+        return "linelen"
     if "D" in d["note"]:
         return d["note"][1].split("/")[0]
     return "clean-host"
@@ -469,7 +584,7 @@ def generate(seed, tier):
     for hi_, (dia, doc) in enumerate(hosts):
         for style in ("lines", "min"):
             yield host_request(doc, dia, r, style)
-        cases = list(plant_container_level(doc, dia, r)) + list(plant_document_level(doc, dia, r))
+        cases = list(plant_container_level(doc, dia, r)) + list(plant_document_level(doc, dia, r)) + list(plant_eof(doc, dia, r))
         if hi_ >= len(HOSTS2) + len(HOSTS1) and tier == "quick":
             r.shuffle(cases)
             cases = cases[:60]
@@ -477,8 +592,13 @@ def generate(seed, tier):
             if label.startswith("skip") or not applicable(label, doc, opts):
                 continue
             for style in (("lines", "min") if hi_ < len(HOSTS2) + len(HOSTS1) else ("lines",)):
-                if style == "min" and (label.startswith(("missing_endquote", "overlength", "unclosed_text")) or "text_key" in label):
+                if style == "min" and (label.startswith(("missing_endquote", "overlength", "unclosed_text", "eof_unclosed")) or "text_key" in label):
                     continue
                 rq = case_request(label, planted, result, code, opts, alt, dia, r, style)
                 if rq is not None:
                     yield rq
+    for dia in (2, 1):
+        for (label, text, doc, lines, L) in boundary_cases(dia):
+            if dia == 1 and any(ord(c) > 126 for c in text):
+                continue
+            yield boundary_request(label, text, doc, lines, L, dia)
